@@ -905,7 +905,12 @@ void AbstractDOMParser::endElement( const   XMLElementDecl&
     	XIncludeUtils xiu((XMLErrorReporter *) this);
 	    // process the XInclude node, then update the fCurrentNode with the new content
 	    if(xiu.parseDOMNodeDoingXInclude(fCurrentNode, fDocument, getScanner()->getEntityHandler()))
+        {
             fCurrentNode = fCurrentParent->getLastChild();
+            // the include may have been replaced by nothing and have been the only child
+            if (fCurrentNode == 0)
+                fCurrentNode = fCurrentParent;
+        }
     }
 }
 
